@@ -642,7 +642,7 @@ func (i *inMemoryPrepopulatedDirectory) filterChildrenRecursive(childFilter Chil
 	for entry := i.contents.entriesList.next; entry != &i.contents.entriesList; entry = entry.next {
 		if directory, leaf := entry.child.GetPair(); directory != nil {
 			directories = append(directories, directory)
-		} else {
+		} else if !i.subtree.filesystem.hiddenFilesMatcher(entry.name.String()) {
 			leaves = append(leaves, leafInfo{
 				name: entry.name,
 				leaf: leaf,
